@@ -38,6 +38,58 @@ META = dict(
 )
 HN = {'hybrid_ndarray.*resize': 3, 'detail_init_': 3}
 UNITS = [
+    # scalar operation of every activation functor == its reference (PyTorch) formula; <cmath> uninterpreted; loop-free: full float domain
+    Unit('act.relu', 'c07a', 'verif_act_relu', mode='fuf', clause='activation relu: the functor computes the reference formula for every float (and parameter)'),
+    Unit('act.relu6', 'c07a', 'verif_act_relu6', mode='fuf', clause='activation relu6: the functor computes the reference formula for every float (and parameter)'),
+    Unit('act.leaky_relu', 'c07a', 'verif_act_leaky_relu', mode='fuf', clause='activation leaky_relu: the functor computes the reference formula for every float (and parameter)'),
+    Unit('act.elu', 'c07a', 'verif_act_elu', mode='fuf', clause='activation elu: the functor computes the reference formula for every float (and parameter)'),
+    Unit('act.celu', 'c07a', 'verif_act_celu', mode='fuf', clause='activation celu: the functor computes the reference formula for every float (and parameter)'),
+    Unit('act.selu', 'c07a', 'verif_act_selu', mode='fuf', clause='activation selu: the functor computes the reference formula for every float (and parameter)'),
+    Unit('act.hardshrink', 'c07a', 'verif_act_hardshrink', mode='fuf', clause='activation hardshrink: the functor computes the reference formula for every float (and parameter)'),
+    Unit('act.hardswish', 'c07a', 'verif_act_hardswish', mode='fuf', clause='activation hardswish: the functor computes the reference formula for every float (and parameter)'),
+    Unit('act.hardtanh', 'c07a', 'verif_act_hardtanh', mode='fuf', clause='activation hardtanh: the functor computes the reference formula for every float (and parameter)'),
+    Unit('act.log_sigmoid', 'c07a', 'verif_act_log_sigmoid', mode='fuf', clause='activation log_sigmoid: the functor computes the reference formula for every float (and parameter)'),
+    Unit('act.mish', 'c07a', 'verif_act_mish', mode='fuf', clause='activation mish: the functor computes the reference formula for every float (and parameter)'),
+    Unit('act.prelu', 'c07a', 'verif_act_prelu', mode='fuf', clause='activation prelu: the functor computes the reference formula for every float (and parameter)'),
+    Unit('act.sigmoid', 'c07a', 'verif_act_sigmoid', mode='fuf', clause='activation sigmoid: the functor computes the reference formula for every float (and parameter)'),
+    Unit('act.silu', 'c07a', 'verif_act_silu', mode='fuf', clause='activation silu: the functor computes the reference formula for every float (and parameter)'),
+    Unit('act.softplus', 'c07a', 'verif_act_softplus', mode='fuf', clause='activation softplus: the functor computes the reference formula for every float (and parameter)'),
+    Unit('act.softshrink', 'c07a', 'verif_act_softshrink', mode='fuf', clause='activation softshrink: the functor computes the reference formula for every float (and parameter)'),
+    Unit('act.softsign', 'c07a', 'verif_act_softsign', mode='fuf', clause='activation softsign: the functor computes the reference formula for every float (and parameter)'),
+    Unit('act.tanhshrink', 'c07a', 'verif_act_tanhshrink', mode='fuf', clause='activation tanhshrink: the functor computes the reference formula for every float (and parameter)'),
+
+    # concrete-geometry bounded units: the real element-wise views end to end (broadcast_binary_ufunc / ufunc_t / outer_t / scalar operands / evaluator)
+    Unit('sub_broadcast.bounded', 'c07k', 'verif_sub_broadcast', mode='bp', plain=True, unwind=8, unwind_loops={'.': 8}, timeout=1500, object_bits=12,
+         bounded='concrete shapes, symbolic int elements, all loops unwound 8 times', waive=[r'arithmetic overflow on (signed to unsigned|unsigned to signed) type conversion'],
+         clause='(2,3) - (3): element (i,j) = a[i][j] - b[j]'),
+    Unit('sub_broadcast_both.bounded', 'c07k', 'verif_sub_broadcast_both', mode='bp', plain=True, unwind=8, unwind_loops={'.': 8}, timeout=1500, object_bits=12,
+         bounded='concrete shapes, symbolic int elements, all loops unwound 8 times', waive=[r'arithmetic overflow on (signed to unsigned|unsigned to signed) type conversion'],
+         clause='(2,1) - (1,3): both operands stretched'),
+    Unit('sub_scalar_rhs.bounded', 'c07k', 'verif_sub_scalar_rhs', mode='bp', plain=True, unwind=8, unwind_loops={'.': 8}, timeout=1500, object_bits=12,
+         bounded='concrete shapes, symbolic int elements, all loops unwound 8 times', waive=[r'arithmetic overflow on (signed to unsigned|unsigned to signed) type conversion'],
+         clause='array - scalar'),
+    Unit('sub_scalar_lhs.bounded', 'c07k', 'verif_sub_scalar_lhs', mode='bp', plain=True, unwind=8, unwind_loops={'.': 8}, timeout=1500, object_bits=12,
+         bounded='concrete shapes, symbolic int elements, all loops unwound 8 times', waive=[r'arithmetic overflow on (signed to unsigned|unsigned to signed) type conversion'],
+         clause='scalar - array (operand order)'),
+    Unit('add_mixed.bounded', 'c07k', 'verif_add_mixed', mode='bp', plain=True, unwind=8, unwind_loops={'.': 8}, timeout=1500, object_bits=12,
+         bounded='concrete shapes, symbolic int elements, all loops unwound 8 times', waive=[r'arithmetic overflow on (signed to unsigned|unsigned to signed) type conversion'],
+         clause='signed char + int is formed in int'),
+    Unit('less.bounded', 'c07k', 'verif_less', mode='bp', plain=True, unwind=8, unwind_loops={'.': 8}, timeout=1500, object_bits=12,
+         bounded='concrete shapes, symbolic int elements, all loops unwound 8 times', waive=[r'arithmetic overflow on (signed to unsigned|unsigned to signed) type conversion'],
+         clause='comparison yields bool elements under broadcasting'),
+    Unit('negative.bounded', 'c07k', 'verif_negative', mode='bp', plain=True, unwind=8, unwind_loops={'.': 8}, timeout=1500, object_bits=12,
+         bounded='concrete shapes, symbolic int elements, all loops unwound 8 times', waive=[r'arithmetic overflow on (signed to unsigned|unsigned to signed) type conversion'],
+         clause='unary'),
+    Unit('outer_sub.bounded', 'c07k', 'verif_outer_sub', mode='bp', plain=True, unwind=8, unwind_loops={'.': 8}, timeout=1500, object_bits=12,
+         bounded='concrete shapes, symbolic int elements, all loops unwound 8 times', waive=[r'arithmetic overflow on (signed to unsigned|unsigned to signed) type conversion'],
+         clause='outer: element (i,j) = a[i] - b[j]'),
+    Unit('where.bounded', 'c07k', 'verif_where', mode='bp', plain=True, unwind=8, unwind_loops={'.': 8}, timeout=1500, object_bits=12,
+         bounded='concrete shapes (2,3),(3),(2,1); symbolic bool / float elements of any bit pattern; all loops unwound 8 times', waive=[r'arithmetic overflow on (signed to unsigned|unsigned to signed) type conversion'],
+         clause='ternary where: element = the selected operand element under broadcasting (also when the other one is NaN / inf)'),
+    Unit('sub_scalars.bounded', 'c07k', 'verif_sub_scalars', mode='bp', plain=True, unwind=8, unwind_loops={'.': 8}, timeout=1500, object_bits=12,
+         bounded='concrete shapes, symbolic int elements, all loops unwound 8 times', waive=[r'arithmetic overflow on (signed to unsigned|unsigned to signed) type conversion'],
+         clause='all-scalar operands'),
+
     Unit('ufunc_shape.bp', 'c07', 'verif_ufunc_shape', mode='bp', unwind=10, unwind_loops=HN, object_bits=10, clause='result has the broadcast shape: Nothing iff not broadcastable, else rank = max rank and extent = per-axis max (shape chain of view::ufunc)'),
     Unit('shape_ufunc1.bp', 'c07', 'verif_shape_ufunc1', mode='bp', unwind=10, clause='unary: result shape is the operand shape'),
     Unit('shape_ufunc2.bp', 'c07', 'verif_shape_ufunc2', mode='bp', unwind=10, clause='binary, operands already broadcast: result shape is the common (= broadcast) shape'),
